@@ -94,6 +94,7 @@ func tableDiff(a, b map[string][]string) string {
 
 // normType renders a type with K=string, V=interface{} and Of-suffixed generic names replaced by their plain twins.
 func normType(t types.Type) string {
+	t = types.Unalias(t) // 'any' is interface{}
 	switch x := t.(type) {
 	case *types.TypeParam:
 		switch x.Obj().Name() {
